@@ -314,6 +314,9 @@ pub struct ListCase {
     pub loc: Vec<Vec<(LE, Vec<u8>)>>,
     pub base: u64,
     pub pad: usize,
+    /// version 5 unit of a .dwo file without DW_AT_rnglists_base / DW_AT_loclists_base: the bases default to the
+    /// position after the first list header
+    pub implicit_bases: bool,
 }
 
 struct BuiltLists {
@@ -402,7 +405,7 @@ fn gen_case(ch: &mut Choices) -> ListCase {
     let nl = 1 + ch.below(3);
     let rng = (0..nr).map(|_| gen_entries(ch, fmt_rng, false, cfg.address_size, naddrs)).collect();
     let loc = (0..nl).map(|_| gen_entries(ch, fmt_loc, true, cfg.address_size, naddrs)).collect();
-    ListCase { cfg, fmt_rng, fmt_loc, addrs, addr_base: ch.pick(&[0usize, 8, 16, 3]), rng, loc, base: gen_addr(ch, cfg.address_size), pad: ch.below(5) }
+    ListCase { cfg, fmt_rng, fmt_loc, addrs, addr_base: ch.pick(&[0usize, 8, 16, 3]), rng, loc, base: gen_addr(ch, cfg.address_size), pad: ch.below(5), implicit_bases: cfg.version >= 5 && ch.chance(64) }
 }
 
 fn check_lists(c: &ListCase, cx: &mut Ctx) -> R {
@@ -561,7 +564,7 @@ fn check_dwarf_level(c: &ListCase, b: &BuiltLists, cx: &mut Ctx) -> R {
         root_attrs.push((if v5 { 0x73 } else { 0x2133 }, F_SEC_OFFSET, 0));
         root_vals.push(AV::U(c.addr_base as u64));
     }
-    if v5 {
+    if v5 && !c.implicit_bases {
         root_attrs.push((0x74, F_SEC_OFFSET, 0));
         root_vals.push(AV::U(b.rng_base as u64));
         root_attrs.push((0x8c, F_SEC_OFFSET, 0));
@@ -634,8 +637,11 @@ fn check_dwarf_level(c: &ListCase, b: &BuiltLists, cx: &mut Ctx) -> R {
         ))
     };
     let mut dwarf = gimli::Dwarf::load(sect).map_err(|e| Failure { sig: "c08/dwarf/load".into(), detail: format!("{e:?}") })?;
-    if c.fmt_loc == ListFmt::GnuDwoLoc {
+    if c.fmt_loc == ListFmt::GnuDwoLoc || c.implicit_bases {
         dwarf.file_type = gimli::DwarfFileType::Dwo;
+    }
+    if c.implicit_bases {
+        cx.label("v5 dwo unit with implicit list bases");
     }
     let header = dwarf.units().next().map_err(|e| Failure { sig: "c08/dwarf/units".into(), detail: format!("{e:?}") })?.ok_or_else(|| Failure { sig: "c08/dwarf/no-unit".into(), detail: String::new() })?;
     let mut unit_r = dwarf.unit(header).map_err(|e| Failure { sig: "c08/dwarf/unit".into(), detail: format!("{e:?}") })?;
